@@ -393,6 +393,10 @@ def quant(facts, t, mapping=None, depth=0):
                 m = dict(m)
                 m[('param', 2)] = m.get(('param', 3), m.get(('param', 2)))   # users look the item up under param 2
                 return {'kind': 'forall' if init else 'exists', 'neg': neg, 'src': ts[2][0], 'cb': cb_, 'm': m, 'acc': init, 'item_param': 3}
+    if kind is None and ts[0] == 'loopq':
+        d = facts.__dict__.get('_loopq', {}).get(ts[1])
+        if d is not None:
+            return _loopq_desc(d, mapping or {}, neg)
     if kind is None and ts[0] == 'call' and depth < 3:
         info = cinfo(ts[1])
         if info['local'] and info['uid']:
@@ -402,6 +406,17 @@ def quant(facts, t, mapping=None, depth=0):
                 if q:
                     q['neg'] = q['neg'] != neg
                     return q
+            # a helper whose boolean result is a quantifier written as a loop (early `return`, or a flag)
+            hb = facts.by_uid.get(info['uid'])
+            if hb is not None and not hb.derived and hb.arg_count == len(ts[2]) and sm is not None:
+                from ..ordset import Reach, Evaluator
+                rc_ = Reach(facts, hb, Evaluator(facts))
+                rets = rc_.return_blocks()
+                if len(rets) == 1:
+                    r_ = rc_.loop_quant_term(0, rets[0])
+                    if r_ is not None:
+                        m_ = {('param', i + 1): a for i, a in enumerate(ts[2])}
+                        return _loopq_desc(r_[2], m_, neg != r_[1])
     if kind is None:
         return None
     bind = closure_bindings(call)
@@ -412,6 +427,34 @@ def quant(facts, t, mapping=None, depth=0):
     if cb is None:
         return None
     return {'kind': kind, 'neg': neg, 'src': call[2][0], 'cb': cb, 'm': m}
+
+
+def _loopq_desc(d, m, neg):
+    """Quantifier descriptor of a loop-form quantifier: value = neg XOR (exists item of src: the iteration reaches a site)."""
+    lp = d['loop']
+    return {'kind': 'exists', 'neg': neg, 'src': subst(lp.src, m) if m else lp.src, 'cb': d['body'], 'm': dict(m), 'loopq': d}
+
+
+def quant_item(q, t):
+    """t is the item the quantifier q ranges over (in the coordinates the consumer's classify sees: after q['m'])."""
+    if q.get('loopq'):
+        s_ = as_item(t)
+        return s_ is not None and s_[0] != 'item' and versionless(s_) == versionless(q['src'])
+    it_ = q['m'].get(('param', q.get('item_param', 2)))
+    return it_ is not None and versionless(t) == versionless(it_)
+
+
+def quant_value(facts, q, classify=None, bool_atom=None, assumption=None):
+    """Value of the predicate of quantifier q for one item under an assumption (True / False / None = not decided).
+    Closure form: the closure's return value; loop form: whether the iteration reaches one of the sites."""
+    d = q.get('loopq')
+    if d is None:
+        return closure_value(facts, q['cb'], classify=classify, bool_atom=bool_atom, assumption=assumption, acc=q.get('acc'))
+    from ..ordset import Reach, Evaluator
+    rc = Reach(facts, d['body'], Evaluator(facts, classify=classify, bool_atom=bool_atom, assumption=assumption))
+    lp = d['loop']
+    may, must = lp.may(rc, d['sites']), lp.must(rc, d['sites'])
+    return may if may == must else None
 
 
 def pred_truth(facts, q, classify, domain, var):
@@ -427,7 +470,7 @@ def pred_truth(facts, q, classify, domain, var):
         return r_
     out = {}
     for o in domain:
-        out[o] = closure_value(facts, q['cb'], classify=cl, assumption={var: o}, acc=q.get('acc'))
+        out[o] = quant_value(facts, q, classify=cl, assumption={var: o})
     return out, bool(hit)
 
 
@@ -503,6 +546,11 @@ def closure_value(facts, cb, classify=None, bool_atom=None, assumption=None, acc
     it = interp(facts, cb)
     rc = Reach(facts, cb, evr)
     vals = set()
+    rets = rc.return_blocks()
+    if len(rets) == 1 and rets[0] in rc.reachable:
+        lq0 = rc._loop_quant_value(0, rets[0])      # the result itself is a quantifier written as a loop
+        if lq0 is not None:
+            return bool(lq0)
     for (bb, si), w in it.ret_assigns.items():
         if bb not in rc.reachable:
             continue
@@ -515,7 +563,10 @@ def closure_value(facts, cb, classify=None, bool_atom=None, assumption=None, acc
                 loc = rv['op']['place']['local']
             elif rv.get('k') == 'unop' and rv.get('op') == 'Not' and rv['op1']['k'] in ('copy', 'move') and not rv['op1']['place']['proj']:
                 loc, neg = rv['op1']['place']['local'], True
-            if loc is not None and w.val[0] in ('phi', 'unop', 'lv') :
+            lq = rc._loop_quant_value(loc, bb) if loc is not None else None
+            if lq is not None:
+                cands = [bool(lq) != neg]
+            elif loc is not None and w.val[0] in ('phi', 'unop', 'lv') :
                 cands = []
                 for tm in rc.reaching_terms(loc, bb):
                     v = evr.ev(tm)
